@@ -291,6 +291,18 @@ def gen_formula(g, dv, t, limit_ref=None, kinds=None):
       f = gen_lookup(g, dv, t, limit_ref, kind)
       if f:
         return f
+    elif kind == "contains":
+      f = gen_contains(g, dv, t, limit_ref)
+      if f:
+        return f
+    elif kind == "find":
+      f = gen_find(g, dv, t, limit_ref)
+      if f:
+        return f
+    elif kind == "prevnext":
+      f = gen_prevnext(g, dv, t, limit_ref)
+      if f:
+        return f
     elif kind == "all":
       others = data_tables(dv)
       if others:
@@ -317,7 +329,15 @@ def gen_lookup(g, dv, t, limit_ref, kind, with_order=None):
       kexpr = repr(_const_for(rng, kc))
     order = ""
     sortcols = [c for c in keycols if c.pure in ("Int", "Numeric", "Text", "Date")]
-    if (with_order or (with_order is None and rng.random() < 0.4)) and sortcols:
+    if g.cfg.get("rich_specs") and rng.random() < 0.7:
+      order = _sort_spec_text(rng, sortcols)
+      if rng.random() < 0.3 and len(keycols) > 1:
+        # two key columns
+        kc2 = rng.choice([c for c in keycols if c.colId != kc.colId])
+        same2 = [c for c in own if c.pure == kc2.pure and not c.formula and not c.isFormula]
+        k2 = ("$" + rng.choice(same2).colId) if same2 else repr(_const_for(rng, kc2))
+        order = ", %s=%s%s" % (kc2.colId, k2, order)
+    elif (with_order or (with_order is None and rng.random() < 0.4)) and sortcols:
       s = rng.choice(sortcols)
       spec = rng.choice(['"%s"', '"-%s"']) % s.colId
       if rng.random() < 0.25 and len(sortcols) > 1:
@@ -333,6 +353,110 @@ def gen_lookup(g, dv, t, limit_ref, kind, with_order=None):
       return "len(%s)" % call
     return "%s.lookupOne(%s=%s%s).id" % (o.tableId, kc.colId, kexpr, order)
   return None
+
+
+def _sort_spec_text(rng, sortcols, allow_id=True):
+  """A random order_by/sort_by keyword text over the given candidate sort columns."""
+  k = rng.random()
+  if not sortcols or k < 0.08:
+    return rng.choice(["", ", order_by=None", ', order_by="id"'] if allow_id else ["", ", order_by=None"])
+  s = rng.choice(sortcols)
+  one = '"%s%s"' % (rng.choice(["", "-"]), s.colId)
+  if k < 0.2:
+    return ', sort_by="%s"' % s.colId
+  if k < 0.45 and len(sortcols) > 1:
+    s2 = rng.choice([c for c in sortcols if c.colId != s.colId] or sortcols)
+    tail = rng.choice(['', ', "id"'])
+    return ', order_by=(%s, "%s%s"%s)' % (one, rng.choice(["", "-"]), s2.colId, tail)
+  return ", order_by=%s" % one
+
+
+def gen_contains(g, dv, t, limit_ref):
+  """[r.id for r in T.lookupRecords(listcol=CONTAINS($x or const[, match_empty=v]) ...)]"""
+  rng = g.rng
+  targets = data_tables(dv)
+  rng.shuffle(targets)
+  own = _earlier(dv, t, limit_ref)
+  for o in targets:
+    lists = [c for c in _earlier(dv, o, limit_ref)
+             if c.pure in ("ChoiceList", "RefList") and not c.isFormula and not c.formula]
+    if not lists:
+      continue
+    lc = rng.choice(lists)
+    if lc.pure == "ChoiceList":
+      same = [c for c in own if c.pure in ("Choice", "Text") and not c.formula and not c.isFormula]
+      kexpr = ("$" + rng.choice(same).colId) if same and rng.random() < 0.6 else repr(rng.choice(CHOICES + [""]))
+      me = rng.choice(["", ', match_empty=""', ", match_empty='a'"])
+    else:
+      kexpr = rng.choice(["$id", "1", "2", "0"])
+      me = rng.choice(["", ", match_empty=0"])
+    sortcols = [c for c in _earlier(dv, o, limit_ref) if _keyable(c) and c.pure != "Choice"]
+    order = _sort_spec_text(rng, sortcols) if rng.random() < 0.5 else ""
+    return "[r.id for r in %s.lookupRecords(%s=CONTAINS(%s%s)%s)]" % (o.tableId, lc.colId, kexpr, me, order)
+  return None
+
+
+def gen_find(g, dv, t, limit_ref):
+  """T.lookupRecords(k=.., order_by=spec).find.OP($p[, $p2]).id"""
+  rng = g.rng
+  targets = data_tables(dv)
+  rng.shuffle(targets)
+  own = _earlier(dv, t, limit_ref)
+  for o in targets:
+    keycols = [c for c in _earlier(dv, o, limit_ref) if _keyable(c)]
+    sortcols = [c for c in keycols if c.pure in ("Int", "Numeric", "Text", "Date")]
+    if not sortcols:
+      continue
+    s = rng.choice(sortcols)
+    sign = rng.choice(["", "-"])
+    spec = '"%s%s"' % (sign, s.colId)
+    probes = [c for c in own if c.pure == s.pure and not c.formula and not c.isFormula]
+    p = ("$" + rng.choice(probes).colId) if probes and rng.random() < 0.8 else repr(_const_for(rng, s))
+    if p == "None":
+      continue
+    args = p
+    if rng.random() < 0.25 and len(sortcols) > 1:
+      s2 = rng.choice([c for c in sortcols if c.colId != s.colId] or sortcols)
+      probes2 = [c for c in own if c.pure == s2.pure and not c.formula and not c.isFormula]
+      if probes2:
+        spec = '(%s, "%s%s")' % (spec, rng.choice(["", "-"]), s2.colId)
+        args = "%s, $%s" % (p, rng.choice(probes2).colId)
+    kc = rng.choice(keycols)
+    same = [c for c in own if c.pure == kc.pure and not c.formula and not c.isFormula]
+    if same and rng.random() < 0.7:
+      key = "%s=$%s, " % (kc.colId, rng.choice(same).colId)
+    else:
+      key = ""
+    op = rng.choice(["lt", "le", "gt", "ge", "eq"])
+    return "%s.lookupRecords(%sorder_by=%s).find.%s(%s).id" % (o.tableId, key, spec, op, args)
+  return None
+
+
+def gen_prevnext(g, dv, t, limit_ref):
+  rng = g.rng
+  own = [c for c in _earlier(dv, t, limit_ref) if _keyable(c)]
+  sortcols = [c for c in own if c.pure in ("Int", "Numeric", "Text", "Date")]
+  fn = rng.choice(["PREVIOUS", "NEXT", "RANK"])
+  parts = ["rec"]
+  if own and rng.random() < 0.5:
+    gb = rng.sample(own, min(len(own), rng.choice([1, 1, 2])))
+    parts.append("group_by=%s" % (repr(gb[0].colId) if len(gb) == 1 else repr(tuple(c.colId for c in gb))))
+  k = rng.random()
+  if not sortcols or k < 0.15:
+    parts.append("order_by=None")
+  else:
+    s = rng.choice(sortcols)
+    one = "%s%s" % (rng.choice(["", "-"]), s.colId)
+    if k < 0.4 and len(sortcols) > 1:
+      s2 = rng.choice([c for c in sortcols if c.colId != s.colId] or sortcols)
+      parts.append("order_by=%r" % ((one, "%s%s" % (rng.choice(["", "-"]), s2.colId)),))
+    else:
+      parts.append("order_by=%r" % one)
+  if fn == "RANK":
+    if rng.random() < 0.5:
+      parts.append("order=%r" % rng.choice(["asc", "desc"]))
+    return "RANK(%s)" % ", ".join(parts)
+  return "%s(%s).id" % (fn, ", ".join(parts))
 
 
 def _const_for(rng, c):
